@@ -486,6 +486,7 @@ def check(model: Model, run: Run) -> None:
                     run.fail(Finding("I5-choices-from-own-options", fq, norm(n), f"choice lookup `{norm(n)}` is not rooted at the options handed in by the session", model.loc(fi.module, n)))
     run.floor("options arguments", n_args, 30)
     registrations_only_by_register(model, run)
+    options_are_read_only_while_coding(model, run)
     # ---- I6 registration -----------------------------------------------------------------------------------
     registration_guarded(model, run)
 
@@ -711,6 +712,47 @@ def reviewed_form_holds(model: Model, fq: str, node: ast.AST) -> bool:
         return False
     vals = [a.value for a in walk_no_nested(fi.node) if isinstance(a, ast.Assign) and any(isinstance(t_, ast.Attribute) and t_.attr == "_value_" for t_ in a.targets)]
     return bool(vals) and all(isinstance(v, ast.Name) and v.id == vparam for v in vals)
+
+
+def options_are_read_only_while_coding(model: Model, run: Run, rule: str = "I10-coding-does-not-write-its-options") -> None:
+    """I10: encoding and decoding read their options: no function outside the session's constructor and `register_*` changes an
+    options object it was handed (or anything reached through it).  A lookup table built into the options on first use is a
+    snapshot of `choices` at that moment - a type registered afterwards is accepted by `register_*` and never seen by the
+    decoder, which is exactly the unregistered session's behaviour."""
+    MUT = {"append", "extend", "insert", "add", "update", "setdefault", "pop", "popitem", "clear", "remove", "discard", "sort", "reverse", "__setitem__"}
+    n = 0
+    for fq, fi in sorted(model.functions.items()):
+        if isinstance(fi.node, ast.Lambda) or fi.name.startswith("register_") or fi.name in ("__init__", "__post_init__"):
+            continue
+        a = fi.node.args
+        opts = {p_.arg for p_ in a.posonlyargs + a.args + a.kwonlyargs if p_.annotation is not None and norm(p_.annotation).replace("t.Optional[", "").rstrip("]").split(".")[-1].endswith("Options")}
+        if not opts:
+            continue
+        n += 1
+
+        def rooted(e: ast.AST) -> bool:
+            while isinstance(e, (ast.Attribute, ast.Subscript)):
+                e = e.value
+            return isinstance(e, ast.Name) and e.id in opts
+        bad = None
+        for x in walk_no_nested(fi.node):
+            if isinstance(x, (ast.Assign, ast.AugAssign, ast.AnnAssign, ast.Delete)):
+                tgs = x.targets if isinstance(x, (ast.Assign, ast.Delete)) else [x.target]
+                for t_ in tgs:
+                    if isinstance(t_, (ast.Attribute, ast.Subscript)) and rooted(t_):
+                        # W22 (C01) judges a counter that is put back in a finally; here any lasting write counts
+                        inside_restore = isinstance(x, ast.AugAssign)
+                        if not inside_restore:
+                            bad = x
+            elif isinstance(x, ast.Call) and isinstance(x.func, ast.Attribute) and x.func.attr in MUT and isinstance(x.func.value, (ast.Attribute, ast.Subscript)) and rooted(x.func.value):
+                bad = x
+            elif isinstance(x, ast.Call) and norm(x.func) in ("object.__setattr__", "setattr") and x.args and rooted(x.args[0]):
+                bad = x
+        run.ob(rule, bad is None, {"function": fq.split("sansldap.")[-1]})
+        if bad is not None:
+            run.fail(Finding(rule, fq, norm(bad)[:80], f"{fq.split('sansldap.')[-1]} writes to the options it was handed (`{norm(bad)[:60]}`): what it stores there is a copy of the registered "
+                             "types as they were at that moment, so a type the session registers later is never used by the decoder", model.loc(fi.module, bad)))
+    run.floor("functions taking an options object", n, 20)
 
 
 def registrations_only_by_register(model: Model, run: Run, rule: str = "I9-choices-change-only-by-registration") -> None:
